@@ -1,8 +1,8 @@
 // package-dir: pkg/engine
 // property: C08
 // bound: two vectors a, b in one Euclidean float32 index; the metadata field "f" of each is one of
-//        {absent, "red", "blue", 5, 7, true, false, ["red"], ["red","blue"]} (81 states, values as a JSON
-//        client sends them: numbers are float64); 14 single-comparison filters over f (=, != on strings,
+//        {absent, "red", "blue", 5, 7, true, false, ["red"], ["red","blue"], int 5} (100 states: values as a
+//        JSON client sends them, numbers being float64, plus the Go int 5 an embedding program may pass); 14 single-comparison filters over f (=, != on strings,
 //        numbers and booleans; <, <=, >, >= on numbers); each state is read live, after a clean restart
 //        from the log, after a snapshot + restart, and after compression to float16
 // rule: for every (state, filter) the ids VFilter returns live must equal the reference evaluation of the
@@ -29,7 +29,7 @@ import (
 )
 
 func TestGovcBounded(t *testing.T) {
-	values := []any{nil, "red", "blue", 5.0, 7.0, true, false, []any{"red"}, []any{"red", "blue"}}
+	values := []any{nil, "red", "blue", 5.0, 7.0, true, false, []any{"red"}, []any{"red", "blue"}, int(5)}
 	type flt struct {
 		text string
 		eval func(v any) bool // reference semantics on the value of f (nil = field absent)
@@ -52,6 +52,9 @@ func TestGovcBounded(t *testing.T) {
 	num := func(op string, n float64) func(any) bool {
 		return func(v any) bool {
 			x, ok := v.(float64)
+			if i, isInt := v.(int); isInt {
+				x, ok = float64(i), true // a number passed through the Go API as an int is a number
+			}
 			if !ok {
 				return false
 			}
